@@ -586,8 +586,12 @@ func impliesGuard(p *Prog, fn *ssa.Function, ridx int, guard guardPred, trivial 
 			okAll = false
 			return
 		}
-		// the value is the guard's own test: its being != trivial is the guard
-		if dir, isG := guard(&ssa.If{Cond: v}); isG && dir == !trivial {
+		// the value is the guard's own test (possibly negated): its being != trivial is the guard
+		vv, flip := v, false
+		if u, isU := v.(*ssa.UnOp); isU && u.Op == token.NOT {
+			vv, flip = u.X, true
+		}
+		if dir, isG := guard(&ssa.If{Cond: vv}); isG && (dir != flip) == !trivial {
 			return
 		}
 		if p.guardedBy(in, guard) == nil && p.guardedBy(at, guard) == nil {
